@@ -237,6 +237,84 @@ class ExhaustiveHtml7(EnumPart):
         return check_case(case, self.name)
 
 
+class Atheris(core.Part):
+    """Coverage-guided campaigns (libFuzzer through atheris) on the instrumented package; the C01 oracle runs inside
+    the target (vf/fuzz_atheris.py).  Findings are re-verified in-process through the ordinary oracle; the final
+    corpus of every campaign (the inputs that increased coverage) is replayed through it as well."""
+    name = 'atheris'
+    rule = ('libFuzzer campaigns: byte 0 -> renderer configuration, byte 1 -> options and input form, rest -> UTF-8 text; '
+            'even shards start from an empty corpus, odd shards from the 652 spec inputs; evaluations = executions reported by '
+            'libFuzzer + replay of each final corpus; non-trivial/distinct are counted on the replayed corpus only')
+    runs = {'quick': 8000, 'thorough': 600000}
+
+    def shards(self, tier):
+        return 2 if tier == 'quick' else env.nproc()
+
+    def check(self, case):
+        return check_case(case, self.name)
+
+    def run(self, tier, k, n, seed, acc):
+        import re as _re
+        import shutil
+        import subprocess
+        import sys
+        import tempfile
+        deps = os.path.join(env.VERIF_DIR, '.deps')
+        if not os.path.isdir(os.path.join(deps, 'atheris')):
+            acc.extra['atheris-not-installed'] += 1
+            return
+        from .. import fuzz_atheris_decode as fd
+        tmp = tempfile.mkdtemp(prefix='vf-atheris-')
+        try:
+            corpus_dir = os.path.join(tmp, 'corpus')
+            os.makedirs(corpus_dir)
+            if k % 2 == 1:
+                from ..gen import corpus as gcorpus
+                for i, text in enumerate(gcorpus.spec_inputs()):
+                    with open(os.path.join(corpus_dir, 'spec%03d' % i), 'wb') as f:
+                        f.write(bytes([(i + k) % 256, (i * 7 + k) % 256]) + text.encode('utf-8'))
+            envv = dict(os.environ, VF_FUZZ_OUT=tmp, PYTHONPATH=deps, VERIF_REPO=env.REPO, PYTHONHASHSEED='0')
+            # dictionary of Markdown fragments (the regex engine gives libFuzzer no coverage gradient to discover them)
+            dict_path = os.path.join(tmp, 'markdown.dict')
+            with open(dict_path, 'w') as f:
+                for tok in sorted(set(pools.INLINE + pools.BLOCK_OPENERS + pools.CONTAINER_PREFIXES + pools.SNIPPETS)):
+                    b = tok.encode('utf-8')
+                    if 0 < len(b) <= 24:
+                        f.write('"%s"\n' % ''.join('\\x%02x' % c for c in b))
+            cmd = [sys.executable, '-m', 'vf.fuzz_atheris', '-runs=%d' % self.runs[tier], '-max_len=1024', '-len_control=20',
+                   '-dict=' + dict_path,
+                   '-seed=%d' % (seed * 64 + k + 1), '-timeout=60', '-rss_limit_mb=3000', '-print_final_stats=1', corpus_dir]
+            proc = subprocess.run(cmd, cwd=env.VERIF_DIR, env=envv, stdout=subprocess.PIPE, stderr=subprocess.STDOUT, timeout=7200)
+            log = proc.stdout.decode('utf-8', 'replace')
+            m = _re.search(r'stat::number_of_executed_units:\s*(\d+)', log)
+            acc.extra['libfuzzer-executions'] += int(m.group(1)) if m else 0
+            acc.evaluations += int(m.group(1)) if m else 0
+            cov = _re.findall(r'cov: (\d+)', log)
+            if cov:
+                acc.extra['max-coverage-counter'] = max(acc.extra['max-coverage-counter'], int(cov[-1]))
+            for name in sorted(os.listdir(tmp)):
+                if name.startswith('finding-'):
+                    with open(os.path.join(tmp, name)) as f:
+                        case = json.load(f)['case']
+                    acc.observe(self, case, self.check(case))
+            for name in sorted(os.listdir(tmp)):
+                if name.startswith(('crash-', 'timeout-', 'oom-')):
+                    with open(os.path.join(tmp, name), 'rb') as f:
+                        case = fd.decode(f.read())
+                    if case is not None:
+                        out = self.check(case)
+                        if out.fail is None:
+                            acc.extra['libfuzzer-artifact-not-reproduced'] += 1
+                        acc.observe(self, case, out)
+            for name in sorted(os.listdir(corpus_dir)):
+                with open(os.path.join(corpus_dir, name), 'rb') as f:
+                    case = fd.decode(f.read())
+                if case is not None:
+                    acc.observe(self, case, self.check(case))
+        finally:
+            shutil.rmtree(tmp, ignore_errors=True)
+
+
 class C01(Prop):
     id = 'C01'
     rule = ('random + mutated + generated + pumped texts x 11 renderer configurations x options x input forms, plus complete '
@@ -251,7 +329,7 @@ class C01(Prop):
     )
 
     def parts(self):
-        return [Random(), Exhaustive(), ExhaustiveHtml7()]
+        return [Random(), Exhaustive(), ExhaustiveHtml7(), Atheris()]
 
 
 PROP = C01()
